@@ -27,12 +27,12 @@ CONE = {
     "C08": [("split", 800)],
     "C09": [("split_bars", 500), ("bar", 200)],
     "C10": [("bar", 700)],
-    "C11": [("history", 250), ("bar", 200), ("split_bars", 150), ("pad", 150), ("tok_roundtrip", 150)],
+    "C11": [("history", 250), ("bar", 200), ("split_bars", 150), ("pad", 150), ("tok_roundtrip", 150), ("composition", 100)],
     "C12": [("midi_events", 300), ("midi_roundtrip", 400)],
     "C13": [("midi_load", 600)],
-    "C14": [("transpose_rel", 600), ("history", 150)],
+    "C14": [("transpose_rel", 600), ("history", 150), ("composition", 120)],
     "C15": [("merge", 600)],
-    "C16": [("history", 450)],
+    "C16": [("history", 450), ("composition", 150)],
     "C17": [("equals", 800), ("interleaved", 300)],
     "C18": [("pad", 300), ("cutoff", 400), ("scale", 300), ("set_channel", 300)],
     "C19": [("tok_stream", 500), ("tok_roundtrip", 150)],
